@@ -71,7 +71,7 @@ def streams(rng, tier, ctx):
             lim = (k, r.pick([k, 8]))
             sim = E.EpSim(r, inter=it)
             sim.srv(lim[0], lim[1], r.pick([0, 1]), dict(E.DEFAULT_EP))
-            theme = r.pick(["cross", "abandoned", "mixed", "mixed"])       # how the first k connections end
+            theme = r.pick(["cross", "abandoned", "mixed", "mixed"]) if i % 3 else "flush_dead"      # how the first k connections end
             lat = r.pick([0, 5_000_000]) if theme != "cross" else 5_000_000   # crossing needs both requests in flight at once
             nets = {"c2s": E.Net(latency=lat), "s2c": E.Net(latency=lat)}
             dt = r.pick([50_000_000, 200_000_000])
@@ -86,6 +86,8 @@ def streams(rng, tier, ctx):
                 if j in abandoned:
                     continue
                 how = r.pick(["cross", "cross", "sdisc", "cdiscnow", "sdrop", "silence", "flush_dead", "flush_dead"]) if theme != "cross" else "cross"
+                if theme == "flush_dead" and (j == 0 or r.chance(1, 2)):
+                    how = "flush_dead"
                 if how == "flush_dead":
                     # round-7 change C17-g: the application asks for a graceful disconnect with Reliable data still unacknowledged and the
                     # peer has gone silent for good - the flush can never complete, only the active timeout ends the connection
@@ -175,6 +177,15 @@ def oracle(stream, cid, ops, outs):
             if len(recent) < min(max_total, max_active) and not fails:
                 fails.append({"oracle": "capacity_returns", "detail": "peer %d refused with ServerFull at t=%d ms although only %d other address(es) exchanged a datagram with the server in the preceding 70 s (max_total %d, max_active %d)" %
                               (p, t // 10**6, len(recent), max_total, max_active), "signature": {"oracle": "capacity_returns"}})
+    # (c') the same with HEARD FROM only: an entry survives without a datagram from its address for at most 20 s (active timeout) plus
+    #      22 s (its own disconnect retries); a pending handshake 22 s, a closed entry 20 s. So a refusal while fewer than the limit
+    #      other addresses were heard from in the preceding 70 s is unjustified even if the server is still WRITING to a silent
+    #      address - a connection being flushed towards a dead peer must be ended by the active timeout (round-7 change C17-g)
+    for (t, p) in sorted(refusals):
+        heard = set(q for (tt, dr, q, d) in delivered if dr == "c2s" and q != p and t - HORIZON < tt <= t)
+        if len(heard) < min(max_total, max_active) and not fails:
+            fails.append({"oracle": "capacity_returns", "detail": "peer %d refused with ServerFull at t=%d ms although only %d other address(es) were heard from in the preceding 70 s (max_total %d, max_active %d): a slot is held by a connection whose peer has been silent for longer than any timer allows" %
+                          (p, t // 10**6, len(heard), max_total, max_active), "signature": {"oracle": "capacity_returns", "cause": "silent_peer_holds_slot"}})
     # (b) API view: the number of RemoteClients reporting is_active() at one instant
     t = 0; active = {}
     for op, o in zip(ops, outs):
